@@ -113,7 +113,7 @@ func window(v int) (int64, int64) {
 }
 
 var dimNames = []string{"leafType", "leafNames", "reqName", "leafWindow", "i1Window", "r1Window", "leafLink", "i1Type", "i1Signer", "presented", "i1InStore", "r1Type", "r1InStore", "r2InStore", "i2InStore"}
-var dims = []int{5, 5, 5, 6, 6, 6, 4, 3, 3, 3, 2, 2, 2, 2, 2}
+var dims = []int{5, 6, 6, 6, 6, 6, 4, 3, 3, 3, 2, 2, 2, 2, 2}
 
 var (
 	dnsA, dnsB, rawA = certs.DNSName("a"), certs.DNSName("b"), certs.RawStringName("a")
@@ -149,7 +149,7 @@ func mkForest(ix []int) forest {
 		f.i1 = build(i1t, nil, a, b, f.r1.cert.Fingerprint, key("i1"), key("i1").Public)
 	}
 	lt := []byte{byte(certs.Leaf), byte(certs.Intermediate), byte(certs.Root), 0, 4}[ix[0]]
-	ln := [][]certs.Name{{dnsA}, nil, {rawA}, {dnsA, dnsB}, {dnsB}}[ix[1]]
+	ln := [][]certs.Name{{dnsA}, nil, {rawA}, {dnsA, dnsB}, {dnsB}, {{Label: []byte{}, Type: certs.TypeRaw}, dnsB}}[ix[1]]
 	a, b = window(ix[3])
 	lk := key("leafkey").Public
 	switch ix[6] {
@@ -162,7 +162,7 @@ func mkForest(ix []int) forest {
 	default:
 		f.leaf = build(lt, ln, a, b, zero, key("i1"), lk)
 	}
-	f.name = []certs.Name{{}, dnsA, dnsB, rawA, {Label: []byte{}, Type: certs.TypeDNSName}}[ix[2]]
+	f.name = []certs.Name{{}, dnsA, dnsB, rawA, {Label: []byte{}, Type: certs.TypeDNSName}, {Label: []byte{}, Type: certs.TypeRaw}}[ix[2]]
 	f.presented = []*meta{f.i1, nil, f.i2}[ix[9]]
 	if ix[10] == 1 {
 		f.store = append(f.store, f.i1)
@@ -186,7 +186,9 @@ func refChain(f forest, now time.Time) bool {
 	if l.Type != byte(certs.Leaf) {
 		return false
 	}
-	if !f.name.IsZero() {
+	// "a name is given" is decided here, not by the code under test: the zero Name (nil label,
+	// type 0) means no name; an explicitly empty label is a name.
+	if !(f.name.Label == nil && f.name.Type == 0) {
 		ok := false
 		for _, n := range l.Names {
 			if bytes.Equal(n.Label, f.name.Label) && n.Type == f.name.Type {
@@ -286,9 +288,9 @@ func main() {
 	r.SetRule(fmt.Sprintf("certificate forests as tuples over %d dimensions %v (sizes %v): all tuples with <=%d dimensions off the valid baseline, plus the full product of the type/name/time dimensions; VerifyLeaf == reference predicate on construction metadata; every single bit of a verified leaf and of its presented intermediate flipped; VerifyParent on every ordered pair of a 14-certificate pool; chains from SelfSignRoot/IssueIntermediate/IssueLeafAt over an issue-time x validity grid verified at issue, mid, expiry-1s (accept) and issue-1s, expiry (reject). distinct_nontrivial = distinct forest tuples evaluated.", len(dims), dimNames, dims, maxOff))
 	list := seqx.ProductList(dims, maxOff)
 	// full product of the five type/name/time dims (others at baseline)
-	full := seqx.ProductList([]int{5, 5, 5, 6, 6, 6}, -1)
+	full := seqx.ProductList([]int{5, 6, 6, 6, 6, 6}, -1)
 	if r.Quick() {
-		full = seqx.ProductList([]int{5, 5, 5, 6, 1, 1}, -1)
+		full = seqx.ProductList([]int{5, 6, 6, 6, 1, 1}, -1)
 	}
 	for _, f := range full {
 		ix := make([]int, len(dims))
